@@ -978,6 +978,7 @@ namespace T
    {
       std::vector< Ev > ev;
       std::vector< ActCall > acts;  // transactional: truncated when an enclosing attempt fails
+      std::vector< ActCall > all_acts;  // every action invocation in call order (never truncated)
       std::vector< Frame > frames;
       bool record_events = false;
       // online verdicts
@@ -994,6 +995,7 @@ namespace T
       {
          ev.clear();
          acts.clear();
+         all_acts.clear();
          frames.clear();
          c02 = c04 = c03 = c06 = 0;
          c02_msg.clear();
@@ -1306,6 +1308,7 @@ namespace T
          }
       }
       L.acts.push_back( { I, b, en, how } );
+      L.all_acts.push_back( { I, b, en, how } );
       if( L.record_events ) L.ev.push_back( { E_ACT, int16_t( I ), RK_NODE, 1, 1, 0, en, b } );
    }
 
